@@ -6,7 +6,26 @@
 void* malloc(unsigned long); void free(void*);
 typedef struct { u8* b; u8* e; u8* c; } vvec;
 static void grow_insert(void* v, void* pos, void* x) {
-#ifdef __CPROVER__
+#if defined(__CPROVER__) && defined(VP_VECGROW_FIXED)
+  /* job option -DVP_VECGROW_FIXED=<bytes>: for vectors that are local to the code under test (the harness cannot reserve
+   * their capacity): the first growth moves the content into ONE block of fixed capacity (capacity is unobservable; dynamic
+   * objects keep a concrete size); growing beyond it is reported like an unwinding assertion */
+  vvec* w = v;
+  u64 n = 0, at = 0;
+  if (w->b) { n = (u64)(w->e - w->b); at = (u64)((u8*)pos - w->b); }   /* an empty vector has null pointers */
+  /* a vector that already owns the fixed-capacity block can only get here by exceeding it: report the bound before any copy
+   * loop is unrolled (choose VP_VECGROW_FIXED different from the capacities the harness reserves) */
+  if (n >= VP_VECGROW_FIXED || (w->b && (u64)(w->c - w->b) == VP_VECGROW_FIXED)) {
+    __CPROVER_assert(0, "unwinding assertion: vector<uint8_t> grew beyond the fixed capacity VP_VECGROW_FIXED");
+    __CPROVER_assume(0);
+  }
+  u8* nb = malloc(VP_VECGROW_FIXED);
+  __CPROVER_assume(nb != 0);
+  if (w->b) for (u64 i = 0; i < VP_VECGROW_FIXED; i++) { if (i < at) nb[i] = w->b[i]; else if (i > at && i <= n) nb[i] = w->b[i - 1]; }
+  nb[at] = *(u8*)x;
+  if (w->b) free(w->b);
+  w->b = nb; w->e = nb + n + 1; w->c = nb + VP_VECGROW_FIXED;
+#elif defined(__CPROVER__)
   (void)v; (void)pos; (void)x;
   __CPROVER_assert(0, "unwinding assertion: vector<uint8_t> grew beyond the capacity reserved by the harness bound");
   __CPROVER_assume(0);
